@@ -27,6 +27,10 @@ InvUnfolding == \A i \in Idx, j \in Idx : (<<i, j>> \in Rel) <=> (Tree(g, 2 * N,
 InvBoundedHash == \A p \in Rel : \A d \in {1, 3, 5} : Tree(g, d, p[1]) = Tree(g, d, p[2])
 \* the specification's answer for one instance compared with itself / two instances of one term is an
 \* admissible observation, and flipping any answer is not (the observation rules are not vacuous)
+\* a nest deeper than the graph has nodes is never the same value as the graph (the graph is either shallower
+\* or, if cyclic, infinite): the reason why the trace specifications may answer FALSE without unfolding
+InvDeepNotSmall == \A s \in {"lt", "vf", "car"}, l \in {1, 2} :
+   ~SameGraph(NestGraph([shape |-> s, k |-> N + 1, leaf |-> l, aux |-> IF s = "lt" THEN <<1, 2>> ELSE <<2>>]), g)
 ASSUME RulesNotVacuous ==
             /\ EqualOK(TRUE, TRUE, FALSE, TRUE) /\ ~EqualOK(TRUE, TRUE, TRUE, FALSE)
             /\ \A s \in BOOLEAN : EqualOK(FALSE, s, FALSE, s) /\ ~EqualOK(FALSE, s, FALSE, ~s)
